@@ -45,6 +45,7 @@ class FnResult:
         self.inlined = []
         self.unmodelled = []
         self.counterexamples = []       # (obligation name, concretised model dict)
+        self.signature = None
         self.samples = []
         self.wall = 0.0
 
@@ -134,6 +135,14 @@ def _run(eng, world, contracts, qual, res, timeout_ms, concretise, keep_smt, onl
         mi, ci, fn = world.function(qual)
     except KeyError:
         raise Unsupported('function %s not found in the current source' % qual)
+    # the callable interface (parameter names in order, defaults, *args/**kwargs): callers outside the verified code bind
+    # to it by position, keyword and omission, so it is part of what the contract is stated over (runner: signature check)
+    import ast as _ast
+    a_ = fn.args
+    dflt = [None] * (len(a_.posonlyargs) + len(a_.args) - len(a_.defaults)) + [_ast.unparse(d) for d in a_.defaults]
+    res.signature = {'params': [[x.arg, d] for x, d in zip(a_.posonlyargs + a_.args, dflt)],
+                     'kwonly': [[x.arg, (_ast.unparse(d) if d is not None else None)] for x, d in zip(a_.kwonlyargs, a_.kw_defaults)],
+                     'vararg': a_.vararg.arg if a_.vararg else None, 'kwarg': a_.kwarg.arg if a_.kwarg else None}
     eng.cur = con
     st = St()
     st.mod, st.cls, st.fn = mi, (ci.name if ci else None), qual
